@@ -26,7 +26,7 @@ BUDGET = {"quick": 176, "thorough": 3000}
 CHUNK = 1
 RUN_TIMEOUT_S = 1500
 MAX_DISCARD_FRACTION = 0.5
-ALL = ["Rattle", "Moreau", "BackwardEuler", "DualStormerVerlet", "Newton", "Riks", "ScipyIVP", "ScipyDAE"]
+ALL = ["Rattle", "Moreau", "BackwardEuler", "DualStormerVerlet", "Newton", "Riks", "ScipyIVP", "ScipyDAE", "Assemble"]
 RULE = (
     "seeded sessions (4..20 steps) for all eight solvers on smooth and contact scenes with continue_with_unconverged on and "
     "off. A fault-free pilot run enumerates the injection points it reaches (fsolve call j of step k; Moreau / RATTLE stage "
@@ -39,7 +39,7 @@ RULE = (
     "distinct = (solver, continue flag, scene kind, injected site group, first/inner occurrence, reaction class); "
     "non-trivial = at least one injected fault actually fired or one feature differential executed"
 )
-RULE += " A third of the contact sessions use a prox parameter beyond the contraction range (prox_scaling in [2, 4], legal): the contact fixed point then fails organically as soon as a contact closes, and the same oracle judges the solver's reaction."
+RULE += " A ninth session kind drives the contact fixed point of consistent_initial_conditions (inside System.assemble) into failure - forced, by budget, or by a diverging prox parameter - with continue_with_unconverged on / off: raise or warn, never silent." + " A third of the contact sessions use a prox parameter beyond the contraction range (prox_scaling in [2, 4], legal): the contact fixed point then fails organically as soon as a contact closes, and the same oracle judges the solver's reaction."
 COMPONENTS = {
     "real": ["all eight solvers", "fsolve", "every fixed-point loop (through the guarded decision hook)", "scipy / scipy_dae back ends (run for real up to the stop time)"],
     "stub": ["tqdm -> SimProgress (step seam)", "warnings / stdout captured (warnings are the observable)"],
@@ -56,6 +56,13 @@ def gen(rng, tier, index):
     name = ALL[index % len(ALL)]
     cont = bool((index // len(ALL)) % 2)
     plan = {"solver_name": name, "continue": cont, "sample_seed": int(rng.integers(2**31)), "all_points": tier == "thorough", "feature": None}
+    if name == "Assemble":
+        # the contact fixed point of consistent_initial_conditions (solver/_base.py) runs inside System.assemble
+        plan["scene_kind"] = "initial_conditions"
+        plan["scene"] = gen_contact_scene(rng, nspheres=int(rng.integers(1, 3)))
+        plan["how"] = str(rng.choice(["forced", "budget", "diverge"]))
+        plan["max_iter"] = int(rng.integers(1, 4))
+        return plan
     if name == "Newton":
         plan["scene_kind"] = "static"
         plan["scene"] = static_scene(rng)
@@ -345,8 +352,53 @@ def feature_check(plan, out, log):
 
 
 # ------------------------------------------------------------------ executor
+def execute_assemble(plan, out, log):
+    """Fault F2 at the initial-condition fixed point: forced through the hook, organic through a tiny iteration budget or
+    through a prox parameter beyond the contraction range; with continue_with_unconverged on / off.  Reaction: raise, or
+    warn; returning silently is a violation (whatever the returned numbers are)."""
+    from cardillo.solver import SolverOptions
+
+    how, cont = plan["how"], plan["continue"]
+    kw = dict(fixed_point_atol=1e-10, continue_with_unconverged=cont)
+    if how == "forced":
+        kw["fixed_point_max_iter"] = 50
+    elif how == "budget":
+        kw["fixed_point_max_iter"] = plan["max_iter"]
+    else:
+        kw.update(fixed_point_max_iter=200, prox_scaling=3.0)
+    sim = Sim(log, faults=[("ic.fp", 0, 1)] if how == "forced" else [])
+    with sim.installed():
+        try:
+            build(plan["scene"], options=SolverOptions(**kw))
+            raised = None
+        except (AssertionError, RuntimeError, ValueError) as e:
+            raised = e
+    failed = [i for i in sim.failed_instances() if i[0] == "ic.fp"]
+    if not failed:
+        out["probes"]["ic_fault_not_reached"] += 1  # no persistent contact at t0, or the budget sufficed
+        out["abstract"] = repr(("Assemble", how, cont, "no_failure"))
+        return
+    out["faults"]["F2_fixed_point_failure" if how == "forced" else "F2o_organic_fixed_point_failure"] += 1
+    out["probes"]["fault_fired"] += 1
+    if raised is not None:
+        r = "raise"
+        out["probes"]["reaction_raise"] += 1
+    elif any(w[0] > failed[0][6] for w in sim.warnings):
+        r = "warn"
+        out["probes"]["reaction_warn_and_return"] += 1
+    else:
+        r = "silent"
+        out["violations"].append(
+            violation("silent_ic_failure", f"consistent_initial_conditions/{how}", f"the contact fixed point of consistent_initial_conditions did not converge ({how}, continue_with_unconverged={cont}) and System.assemble returned without raising and without a warning")
+        )
+    out["nontrivial"] = True
+    out["abstract"] = repr(("Assemble", how, cont, r))
+
+
 def execute(plan, out, log):
     name = plan["solver_name"]
+    if name == "Assemble":
+        return execute_assemble(plan, out, log)
     reactions = set()
     if plan.get("feature"):
         feature_check(plan, out, log)
